@@ -260,6 +260,7 @@ def check_debug(spec, data, y):
         before = {}
         for m in methods:
             before[m] = getattr(pipe, m)(data)
+        plain = copy.deepcopy(pipe)          # an uninstrumented copy of the fitted pipeline (reference for the copies below)
         try:
             alter_pipeline_for_debugging(pipe)
         except Exception as e:
@@ -285,6 +286,32 @@ def check_debug(spec, data, y):
                 rec[coor] = (model, dbg)
             bad += _chain(pipe, (0,), rec, m, data, after)
             records[m] = rec
+        # a deep copy of the instrumented pipeline is an instrumented pipeline of its own: used on OTHER rows it returns
+        # what the uninstrumented pipeline returns for them and ITS steps record ITS inputs and outputs
+        if not bad:
+            try:
+                pipe2 = copy.deepcopy(pipe)
+                data2 = data.iloc[::-1].reset_index(drop=True) if hasattr(data, "iloc") else \
+                    data[::-1].copy() if hasattr(data, "shape") else [list(r) for r in data[::-1]]
+            except Exception:  # noqa: BLE001
+                pipe2 = None
+            if pipe2 is not None:
+                for m in methods:
+                    try:
+                        want = getattr(plain, m)(data2)
+                        got = getattr(pipe2, m)(data2)
+                    except Exception as e:  # noqa: BLE001
+                        bad.append(("debug:call-raises:%s:deep-copy" % type(e).__name__, "%s raises on a deep copy of the "
+                                    "instrumented pipeline" % m, "%s: %s" % (type(e).__name__, str(e)[:100]),
+                                    "same output as the uninstrumented pipeline"))
+                        continue
+                    if not _eq(want, got):
+                        bad.append(("debug:output-changed:deep-copy", "output of %s on a deep copy of the instrumented pipeline "
+                                    "differs from the uninstrumented pipeline's" % m, None, "identical output"))
+                    rec2 = {coor: (model, getattr(model, "_debug", None))
+                            for coor, model, _ in enumerate_pipeline_models(pipe2)}
+                    bad += [(k + ":deep-copy", w + " (deep copy of the instrumented pipeline, other rows)", o, r)
+                            for k, w, o, r in _chain(pipe2, (0,), rec2, m, data2, got)]
     return bad, records
 
 
